@@ -93,6 +93,26 @@ def random_source(rng):
     return "".join(parts)
 
 
+def multiline_source(rng):
+    """several lines, LF / CRLF / mixed line ends, multi-byte characters in comments, strings and bare: the span of
+    every later token depends on how each earlier line and line end was counted"""
+    style = rng.pick(["lf", "crlf", "crlf", "mixed"])
+    lines = []
+    for _ in range(3 + rng.below(5)):
+        parts = []
+        for _k in range(rng.below(4)):
+            k = rng.pick(["dec", "ident", "ident", "sym", "str", "chr", "hex"])
+            parts.append(SPELL[k](rng))
+            parts.append(rng.pick([" ", " ", "\t", ""]))
+        if rng.chance(1, 3):
+            parts.append(rng.pick(['"\u00e9"', '"\u20ac\u00e9"', "\u00e9", "'\u00e9'", '"\U0001F35D"']))
+        if rng.chance(1, 3):
+            parts.append(" // " + rng.pick(["c", "caf\u00e9", "\u20ac \u20ac", "\U0001F35D", ""]))
+        end = {"lf": "\n", "crlf": "\r\n"}.get(style) or rng.pick(["\n", "\r\n"])
+        lines.append("".join(parts) + end)
+    return "".join(lines)
+
+
 def main():
     rep = Reporter("C14")
     if not setup_common(rep, THEOREMS):
@@ -113,6 +133,8 @@ def main():
     n_exh = len(srcs)
     for _ in range(100000 if thorough else 6000):
         srcs.append(random_source(rng))
+    for _ in range(30000 if thorough else 3000):
+        srcs.append(multiline_source(rng))
     model = run_model(["lex\t" + sexp_str(s) for s in srcs])
     a = run_harness(["lexa\t" + esc(s) for s in srcs])
     d = run_harness(["lexd\t" + esc(s.encode("utf-8")) for s in srcs])
@@ -178,7 +200,8 @@ def main():
         "evaluations": len(srcs),
         "distinct_nontrivial": len(nontrivial),
         "rule": "all strings of length <= 3 over a %d-character alphabet of lexically significant characters%s (exhaustive: %d) "
-                "plus %d random token sequences in random spellings/layouts; each through the real alpha lexer, the real delta "
+                "plus %d random token sequences in random spellings/layouts and multi-line sources with LF/CRLF/mixed line ends "
+                "and multi-byte characters; each through the real alpha lexer, the real delta "
                 "lexer and the Lean reference lexer; non-trivial = at least one token; distinct by token dump"
                 % (len(ALPHABET), " and length 4 over a 23-character sub-alphabet" if thorough else "", n_exh, len(srcs) - n_exh),
         "exhaustive": True,
